@@ -1,0 +1,26 @@
+//go:build verif
+
+package iscp
+
+import "github.com/aptpod/iscp-go/transport"
+
+// Verification hooks (build tag "verif"). Nothing here is part of a normal build.
+
+// VerifSentStorage exposes the unexported sent-storage interface to an external harness.
+type VerifSentStorage = sentStorage
+
+// VerifRegisterDialer registers a custom dialer under a transport name (same as the test-only RegisterDialer).
+func VerifRegisterDialer(tr TransportName, f func() transport.Dialer) {
+	customDialFuncs[tr] = f
+}
+
+// VerifNewInmemSentStorage returns the in-memory sent storage that keeps payloads.
+func VerifNewInmemSentStorage() VerifSentStorage { return newInmemSentStorage() }
+
+// VerifNewInmemSentStorageNoPayload returns the default in-memory sent storage.
+func VerifNewInmemSentStorageNoPayload() VerifSentStorage { return newInmemSentStorageNoPayload() }
+
+// VerifWithSentStorage lets a harness interpose a (recording) sent storage.
+func VerifWithSentStorage(s VerifSentStorage) ConnOption {
+	return func(c *ConnConfig) { c.sentStorage = s }
+}
